@@ -593,8 +593,18 @@ int yr_arena_load_stream(YR_STREAM* stream, YR_ARENA** arena)
 
   YR_ARENA_REF reloc_ref;
 
+  // The relocation table ends with a null reference. Without it the end of
+  // the stream is indistinguishable from a file that was cut short.
+  bool terminated = false;
+
   while (yr_stream_read(&reloc_ref, sizeof(reloc_ref), 1, stream) == 1)
   {
+    if (YR_ARENA_IS_NULL_REF(reloc_ref))
+    {
+      terminated = true;
+      break;
+    }
+
     YR_ARENA_BUFFER* b = &new_arena->buffers[reloc_ref.buffer_id];
 
     if (reloc_ref.buffer_id >= new_arena->num_buffers ||
@@ -617,6 +627,12 @@ int yr_arena_load_stream(YR_STREAM* stream, YR_ARENA** arena)
         yr_arena_make_ptr_relocatable(
             new_arena, reloc_ref.buffer_id, reloc_ref.offset, EOL),
         yr_arena_release(new_arena))
+  }
+
+  if (!terminated)
+  {
+    yr_arena_release(new_arena);
+    return ERROR_CORRUPT_FILE;
   }
 
   *arena = new_arena;
@@ -746,6 +762,16 @@ int yr_arena_save_stream(YR_ARENA* arena, YR_STREAM* stream)
         sizeof(reloc_ptr));
 
     reloc = reloc->next;
+  }
+
+  // Mark the end of the relocation table, so that a truncated file can be
+  // told apart from a complete one when loading.
+  if (result == ERROR_SUCCESS)
+  {
+    YR_ARENA_REF end_ref = YR_ARENA_NULL_REF;
+
+    if (yr_stream_write(&end_ref, sizeof(end_ref), 1, stream) != 1)
+      result = ERROR_WRITING_FILE;
   }
 
   return result;
